@@ -49,6 +49,7 @@ mutual
     | ret (e : Option Expr)
     | throw_ (e : Expr)
     | try_ (b : Expr) (p : Pat) (c : Expr)
+    | switch_ (scrutinee : Expr) (arms : List SwitchArm)   -- `switch (e) case p -> body …`
     | evalSrc (e : Expr)                          -- `eval "<source of e>"`
     | frozen (v : Nat)                            -- C17: `Expr::Frozen`, index into a table of values
     | freeze (e : Expr)                           -- C17: `freeze e`
@@ -61,11 +62,14 @@ mutual
     | yieldItem (k v : Expr) (into : Option Expr)
   inductive Param where
     | mk (name : String) (dflt : Option Expr) (splat : Bool)
+  inductive SwitchArm where
+    | mk (p : Pat) (body : Expr)
 end
 
 instance : Inhabited Expr := ⟨.null⟩
 instance : Inhabited ForBody := ⟨.exec .null⟩
 instance : Inhabited Param := ⟨.mk "" none false⟩
+instance : Inhabited SwitchArm := ⟨.mk .underscore .null⟩
 
 def Param.name : Param → String
   | .mk n _ _ => n
